@@ -426,9 +426,30 @@ def hist_set(ch):
     h.lib = mk
     h.lines.append("(define t0 (%s cmp))" % mk)
     for _ in range(8 + ch.n(50)):
-        op = ch.pick(["adjoin", "adjoin", "delete", "union", "intersection", "difference", "contains", "size", "list", "old", "count", "xor", "compare", "compare"])
+        op = ch.pick(["adjoin", "adjoin", "delete", "union", "intersection", "difference", "contains", "size", "list", "old", "count", "xor", "compare", "compare", "shift"])
         a = ch.pick(names)
-        x = ch.n(25)
+        x = ch.n(5 if bag else 25)      # few distinct elements in a bag, so that multiplicities matter
+        if op == "shift":
+            # same size, (nearly) the same elements, one occurrence moved from one element to another
+            present = sorted(k for k in vers[a] if vers[a][k] > 0)
+            if len(present) < 2:
+                continue
+            x, y = present[ch.n(len(present))], present[ch.n(len(present))]
+            new = "t%d" % len(names)
+            c = collections.Counter(vers[a])
+            c[x] -= 1
+            if bag or c[y] == 0:
+                c[y] += 1
+            c = +c
+            h.lines.append("(define %s (%s-adjoin (%s-delete %s %d) %d))" % (new, mk, mk, a, x, y))
+            vers[new] = c
+            names.append(new)
+            h.updates += 1
+            ca, cb = vers[a], c
+            le = all(ca[k] <= cb[k] for k in ca)
+            ge = all(cb[k] <= ca[k] for k in cb)
+            h.emit("(list (%s=? %s %s) (%s<=? %s %s) (%s>=? %s %s) (%s<? %s %s))" % (mk, a, new, mk, a, new, mk, a, new, mk, a, new), sc([le and ge, le, ge, le and not ge]))
+            continue
         if op in ("adjoin", "delete", "union", "intersection", "difference", "xor"):
             new = "t%d" % len(names)
             c = collections.Counter(vers[a])
